@@ -1,6 +1,7 @@
 package main
 
 import (
+	"sync"
 	"encoding/json"
 	"fmt"
 	"math/big"
@@ -410,6 +411,38 @@ func execPow(line string, w []string) string {
 			if accHi, lineHi := probe(want, above); accHi {
 				out.Violate(xvlib.Violation{Key: "pow-accepts-above-target", What: fmt.Sprintf("pow CheckMinerMatch accepted a flawless block whose hash %s is one above the target %s its own ancestors prescribe (bits %d)", above, T, want),
 					Ops: []string{lineHi}, Impl: []string{"accept"}})
+			}
+		}
+		// the same verdicts when several goroutines ask the same instance at once (block sync verifies received blocks while
+		// the miner goroutine grinds nonces through the same IsProofed): one case in sixteen, chosen by the line itself
+		if above := new(big.Int).Add(T, one); accT && above.Cmp(two256) < 0 && above.Cmp(c.specTarget(want)) > 0 && xvlib.Sum8([]byte(line))[0]%16 == 0 {
+			var mu sync.Mutex
+			bad := ""
+			var wg sync.WaitGroup
+			inst.Start() // the instance's own loop takes the "higher block seen" notices of accepted blocks
+			for g := 0; g < 8; g++ {
+				wg.Add(1)
+				go func(g int) {
+					defer wg.Done()
+					for k := 0; k < 150; k++ {
+						h, wantAcc := T, true
+						if (g+k)%2 == 1 {
+							h, wantAcc = above, false
+						}
+						if acc, _ := probe(want, h); acc != wantAcc {
+							mu.Lock()
+							bad = fmt.Sprintf("hash %s (target %s): accepted=%v, alone the same call answers %v", h, T, acc, wantAcc)
+							mu.Unlock()
+							return
+						}
+					}
+				}(g)
+			}
+			wg.Wait()
+			inst.Stop()
+			if bad != "" {
+				out.Violate(xvlib.Violation{Key: "pow-verdict-differs-under-concurrency", What: "pow CheckMinerMatch asked by several goroutines at once about flawless blocks at and one above the prescribed target: " + bad,
+					Ops: []string{line}, Impl: []string{bad}})
 			}
 		}
 		switch {
